@@ -100,8 +100,10 @@ func (hs *clientHandshakeStateTLS13) decompressCert(m utlsCompressedCertificateM
 	rawMsg[2] = uint8(m.uncompressedLength >> 8)
 	rawMsg[3] = uint8(m.uncompressedLength)
 
-	n, err := decompressed.Read(rawMsg[4:])
-	if err != nil && !errors.Is(err, io.EOF) {
+	// A decoder may return fewer bytes than requested per Read (block or flush boundaries):
+	// read until the declared length is reached or the stream ends.
+	n, err := io.ReadFull(decompressed, rawMsg[4:])
+	if err != nil && !errors.Is(err, io.EOF) && !errors.Is(err, io.ErrUnexpectedEOF) {
 		c.sendAlert(alertBadCertificate)
 		return nil, err
 	}
@@ -111,6 +113,15 @@ func (hs *clientHandshakeStateTLS13) decompressCert(m utlsCompressedCertificateM
 		// https://datatracker.ietf.org/doc/html/rfc8879#section-4
 		c.sendAlert(alertBadCertificate)
 		return nil, fmt.Errorf("decompressed len (%d) does not match specified len (%d)", n, m.uncompressedLength)
+	}
+	// The decompressed message must not be longer than the declared length either.
+	var extra [1]byte
+	if k, err := io.ReadFull(decompressed, extra[:]); k != 0 || (err != nil && !errors.Is(err, io.EOF)) {
+		c.sendAlert(alertBadCertificate)
+		if k != 0 {
+			return nil, fmt.Errorf("decompressed message is longer than specified len (%d)", m.uncompressedLength)
+		}
+		return nil, err
 	}
 	certMsg := new(certificateMsgTLS13)
 	if !certMsg.unmarshal(rawMsg) {
